@@ -53,9 +53,9 @@ var blsP, _ = new(big.Int).SetString("1a0111ea397fe69a4b1ba7b6434bacd764774b84f3
 // blsAware: flag-bit and field-range faults of the zcash BLS12-381 serialisation.
 func blsAware(coordLen int) []func([]byte, int) []byte {
 	return []func([]byte, int) []byte{
-		func(v []byte, a int) []byte { v[0] ^= 0x80; return v },                // compression flag
-		func(v []byte, a int) []byte { v[0] ^= 0x40; return v },                // infinity flag with payload
-		func(v []byte, a int) []byte { v[0] ^= 0x20; return v },                // sign flag
+		func(v []byte, a int) []byte { v[0] ^= 0x80; return v },                   // compression flag
+		func(v []byte, a int) []byte { v[0] ^= 0x40; return v },                   // infinity flag with payload
+		func(v []byte, a int) []byte { v[0] ^= 0x20; return v },                   // sign flag
 		func(v []byte, a int) []byte { v[0] |= 0x40; v[len(v)-1] |= 1; return v }, // infinity with stray payload
 		func(v []byte, a int) []byte { // infinity encoding with the sign bit
 			for i := range v {
@@ -123,6 +123,19 @@ func init() {
 				}
 				return p.Bytes()
 			},
+			Reuse: func() func(in []byte) Result {
+				var p bls12381.G1
+				return func(in []byte) Result {
+					if p.SetBytes(in) != nil {
+						return Result{}
+					}
+					re := p.Bytes()
+					if len(in) > 0 && in[0]&0x80 != 0 {
+						re = p.BytesCompressed()
+					}
+					return Result{Accepted: true, Reenc: re, Member: g1InSubgroup(&p)}
+				}
+			},
 			Call: func(in []byte) Result {
 				var p bls12381.G1
 				if p.SetBytes(in) != nil {
@@ -164,6 +177,19 @@ func init() {
 				}
 				return p.Bytes()
 			},
+			Reuse: func() func(in []byte) Result {
+				var p bls12381.G2
+				return func(in []byte) Result {
+					if p.SetBytes(in) != nil {
+						return Result{}
+					}
+					re := p.Bytes()
+					if len(in) > 0 && in[0]&0x80 != 0 {
+						re = p.BytesCompressed()
+					}
+					return Result{Accepted: true, Reenc: re, Member: g2InSubgroup(&p)}
+				}
+			},
 			Call: func(in []byte) Result {
 				var p bls12381.G2
 				if p.SetBytes(in) != nil {
@@ -181,6 +207,16 @@ func init() {
 	// ---- ff decoders ----
 	Register(&Entry{Name: "bls12381/ff.Scalar.UnmarshalBinary", Canon: true,
 		Valid: func(seed uint64) []byte { b, _ := blsScalar(seed).MarshalBinary(); return b },
+		Reuse: func() func(in []byte) Result {
+			var s ff.Scalar
+			return func(in []byte) Result {
+				if s.UnmarshalBinary(in) != nil {
+					return Result{}
+				}
+				b, _ := s.MarshalBinary()
+				return Result{Accepted: true, Reenc: b}
+			}
+		},
 		Call: func(in []byte) Result {
 			var s ff.Scalar
 			if s.UnmarshalBinary(in) != nil {
@@ -195,6 +231,16 @@ func init() {
 			f.SetBytes(seedBytes(seed, 64))
 			b, _ := f.MarshalBinary()
 			return b
+		},
+		Reuse: func() func(in []byte) Result {
+			var f ff.Fp
+			return func(in []byte) Result {
+				if f.UnmarshalBinary(in) != nil {
+					return Result{}
+				}
+				b, _ := f.MarshalBinary()
+				return Result{Accepted: true, Reenc: b}
+			}
 		},
 		Call: func(in []byte) Result {
 			var f ff.Fp
@@ -211,6 +257,16 @@ func init() {
 			f[1].SetBytes(seedBytes(seed+1, 64))
 			b, _ := f.MarshalBinary()
 			return b
+		},
+		Reuse: func() func(in []byte) Result {
+			var f ff.Fp2
+			return func(in []byte) Result {
+				if f.UnmarshalBinary(in) != nil {
+					return Result{}
+				}
+				b, _ := f.MarshalBinary()
+				return Result{Accepted: true, Reenc: b}
+			}
 		},
 		Call: func(in []byte) Result {
 			var f ff.Fp2
@@ -233,6 +289,16 @@ func init() {
 			b, _ := f.MarshalBinary()
 			return b
 		},
+		Reuse: func() func(in []byte) Result {
+			var f ff.Fp12
+			return func(in []byte) Result {
+				if f.UnmarshalBinary(in) != nil {
+					return Result{}
+				}
+				b, _ := f.MarshalBinary()
+				return Result{Accepted: true, Reenc: b}
+			}
+		},
 		Call: func(in []byte) Result {
 			var f ff.Fp12
 			if f.UnmarshalBinary(in) != nil {
@@ -248,6 +314,12 @@ func init() {
 			gt := bls12381.Pair(&p, bls12381.G2Generator())
 			b, _ := gt.MarshalBinary()
 			return b
+		},
+		Reuse: func() func(in []byte) Result {
+			var z bls12381.Gt
+			return func(in []byte) Result {
+				return Result{Accepted: z.UnmarshalBinary(in) == nil}
+			}
 		},
 		Call: func(in []byte) Result {
 			var z bls12381.Gt
@@ -309,6 +381,16 @@ func init() {
 			return Result{Accepted: true, Reenc: b, Member: (goldilocks.Curve{}).IsOnCurve(P)}
 		}})
 	Register(&Entry{Name: "goldilocks.Point.UnmarshalBinary", Canon: true, Membership: true, Cost: 5, Seeds: 10, Valid: goldValid, Aware: goldAware,
+		Reuse: func() func(in []byte) Result {
+			var P goldilocks.Point
+			return func(in []byte) Result {
+				if P.UnmarshalBinary(in) != nil {
+					return Result{}
+				}
+				b, _ := P.MarshalBinary()
+				return Result{Accepted: true, Reenc: b, Member: (goldilocks.Curve{}).IsOnCurve(&P)}
+			}
+		},
 		Call: func(in []byte) Result {
 			var P goldilocks.Point
 			if P.UnmarshalBinary(in) != nil {
@@ -352,6 +434,18 @@ func init() {
 		func(v []byte, a int) []byte { v[15] |= 0x80; return v }, // unused top bit of y0
 	}
 	Register(&Entry{Name: "fourq.Point.Unmarshal", Canon: true, Membership: true, FixedLen: 32, Cost: 4, Seeds: 10, Valid: fourqValid, Aware: fourqAware,
+		Reuse: func() func(in []byte) Result {
+			var P fourq.Point
+			return func(in []byte) Result {
+				var buf, out [32]byte
+				copy(buf[:], in)
+				if !P.Unmarshal(&buf) {
+					return Result{}
+				}
+				P.Marshal(&out)
+				return Result{Accepted: true, Reenc: out[:], Member: P.IsOnCurve()}
+			}
+		},
 		Call: func(in []byte) Result {
 			var P fourq.Point
 			var buf, out [32]byte
@@ -424,9 +518,11 @@ func init() {
 		if g == group.P521 {
 			cost = 40
 		}
-		call := func(in []byte) Result {
-			e := g.NewElement()
+		decodeInto := func(e group.Element, in []byte) Result {
 			if e.UnmarshalBinary(in) != nil {
+				// a receiver whose decode was refused is still an object the caller holds
+				e.IsIdentity()
+				e.MarshalBinary()
 				return Result{}
 			}
 			var re []byte
@@ -443,11 +539,16 @@ func init() {
 			}
 			return Result{Accepted: true, Reenc: re, Member: member}
 		}
+		call := func(in []byte) Result { return decodeInto(g.NewElement(), in) }
+		reuse := func() func(in []byte) Result {
+			e := g.Generator()
+			return func(in []byte) Result { return decodeInto(e, in) }
+		}
 		Register(&Entry{Name: "group[" + gname + "].Element.UnmarshalBinary(compressed)", Canon: true, Membership: true, Cost: cost, Seeds: 10,
-			Valid: func(seed uint64) []byte { b, _ := elt(seed).MarshalBinaryCompress(); return b }, Call: call})
+			Valid: func(seed uint64) []byte { b, _ := elt(seed).MarshalBinaryCompress(); return b }, Call: call, Reuse: reuse})
 		if g != group.Ristretto255 {
 			Register(&Entry{Name: "group[" + gname + "].Element.UnmarshalBinary(uncompressed)", Canon: true, Membership: true, Cost: cost, Seeds: 10,
-				Valid: func(seed uint64) []byte { b, _ := elt(seed).MarshalBinary(); return b }, Call: call,
+				Valid: func(seed uint64) []byte { b, _ := elt(seed).MarshalBinary(); return b }, Call: call, Reuse: reuse,
 				Aware: []func([]byte, int) []byte{
 					func(v []byte, a int) []byte { // x + p if it fits in the byte length
 						if len(v) < 3 {
@@ -468,6 +569,14 @@ func init() {
 			Valid: func(seed uint64) []byte {
 				b, _ := g.HashToScalar(seedBytes(seed, 16), []byte("circlsim")).MarshalBinary()
 				return b
+			},
+			Reuse: func() func(in []byte) Result {
+				s := g.NewScalar()
+				return func(in []byte) Result {
+					err := s.UnmarshalBinary(in)
+					s.MarshalBinary()
+					return Result{Accepted: err == nil}
+				}
 			},
 			Call: func(in []byte) Result {
 				s := g.NewScalar()
@@ -495,6 +604,16 @@ func init() {
 		}
 		Register(&Entry{Name: "oprf[" + su.Identifier() + "].PublicKey.UnmarshalBinary", Canon: true, Cost: cost, Seeds: 4,
 			Valid: func(seed uint64) []byte { b, _ := key(seed).Public().MarshalBinary(); return b },
+			Reuse: func() func(in []byte) Result {
+				var pk oprf.PublicKey
+				return func(in []byte) Result {
+					if pk.UnmarshalBinary(su, in) != nil {
+						return Result{}
+					}
+					b, _ := pk.MarshalBinary()
+					return Result{Accepted: true, Reenc: b}
+				}
+			},
 			Call: func(in []byte) Result {
 				var pk oprf.PublicKey
 				if pk.UnmarshalBinary(su, in) != nil {
@@ -505,6 +624,16 @@ func init() {
 			}})
 		Register(&Entry{Name: "oprf[" + su.Identifier() + "].PrivateKey.UnmarshalBinary", Cost: cost, Seeds: 4,
 			Valid: func(seed uint64) []byte { b, _ := key(seed).MarshalBinary(); return b },
+			Reuse: func() func(in []byte) Result {
+				var sk oprf.PrivateKey
+				return func(in []byte) Result {
+					if sk.UnmarshalBinary(su, in) != nil {
+						return Result{}
+					}
+					sk.Public()
+					return Result{Accepted: true}
+				}
+			},
 			Call: func(in []byte) Result {
 				var sk oprf.PrivateKey
 				if sk.UnmarshalBinary(su, in) != nil {
@@ -527,6 +656,16 @@ func registerBLS[K bls.KeyGroup](label string, pkLen int) {
 	msg := []byte("circlsim bls message")
 	Register(&Entry{Name: "bls[key" + label + "].PublicKey.UnmarshalBinary", Canon: true, Cost: 15, Seeds: 4,
 		Valid: func(seed uint64) []byte { b, _ := key(seed).PublicKey().MarshalBinary(); return b },
+		Reuse: func() func(in []byte) Result {
+			var pk bls.PublicKey[K]
+			return func(in []byte) Result {
+				if pk.UnmarshalBinary(in) != nil {
+					return Result{}
+				}
+				b, _ := pk.MarshalBinary()
+				return Result{Accepted: true, Reenc: b}
+			}
+		},
 		Call: func(in []byte) Result {
 			var pk bls.PublicKey[K]
 			if pk.UnmarshalBinary(in) != nil {
@@ -537,6 +676,16 @@ func registerBLS[K bls.KeyGroup](label string, pkLen int) {
 		}, Aware: blsAware(48)})
 	Register(&Entry{Name: "bls[key" + label + "].PrivateKey.UnmarshalBinary", Cost: 15, Seeds: 4,
 		Valid: func(seed uint64) []byte { b, _ := key(seed).MarshalBinary(); return b },
+		Reuse: func() func(in []byte) Result {
+			var sk bls.PrivateKey[K]
+			return func(in []byte) Result {
+				if sk.UnmarshalBinary(in) != nil {
+					return Result{}
+				}
+				sk.PublicKey()
+				return Result{Accepted: true}
+			}
+		},
 		Call: func(in []byte) Result {
 			var sk bls.PrivateKey[K]
 			if sk.UnmarshalBinary(in) != nil {
@@ -557,6 +706,13 @@ func registerBLS[K bls.KeyGroup](label string, pkLen int) {
 		}, Aware: blsAware(48)})
 	Register(&Entry{Name: "bls[key" + label + "].Aggregate(signature)", Cost: 40, Seeds: 3,
 		Valid: func(seed uint64) []byte { return bls.Sign(key(seed), msg) },
+		Reuse: func() func(in []byte) Result {
+			var k K
+			return func(in []byte) Result {
+				_, err := bls.Aggregate(k, []bls.Signature{bls.Sign(key(9), msg), in})
+				return Result{Accepted: err == nil}
+			}
+		},
 		Call: func(in []byte) Result {
 			var k K
 			_, err := bls.Aggregate(k, []bls.Signature{bls.Sign(key(9), msg), in})
